@@ -9,6 +9,8 @@ def pipeline(run):
     scen = os.path.join(run.scratch, "sscen.ndjson")
     if run.replay:
         scen = os.path.join(run.replay, "scen-struct.ndjson")
+        if not os.path.exists(scen):
+            return {}, None
     else:
         run.model_check("MC_Fields", "SPECIFICATION Spec\nINVARIANTS A_Refines A_IgnoreWins A_MapWins\nCHECK_DEADLOCK FALSE\n", workers=8, timeout=1800)
         out = run.tlc("Export_Struct", "INIT Init\nNEXT Next\nCONSTANTS\n  ScenOut = \"%s\"\nCHECK_DEADLOCK FALSE\n" % scen, workers=1, timeout=1800, role="export")
